@@ -1048,7 +1048,10 @@ class Interp(object):
                 and len(expr.args) == 2 and st.env.get('isinstance') is None:
             x = self.ev(expr.args[0], st, fctx)
             ty = self.ev(expr.args[1], st, fctx)
-            return ('lit', ('isinstance', x, self._type_text(ty)), True)
+            tt = self._type_text(ty)
+            if x == NONE and 'NoneType' not in tt and tt not in ('object', 'None'):
+                return ('const', False)      # isinstance(None, <some class>) is False
+            return ('lit', ('isinstance', x, tt), True)
         t = self.ev(expr, st, fctx)
         return self._truthy_atom(t)
 
